@@ -459,16 +459,33 @@ theorem runT_refines {α} (p : TProg α) (r : Reader) (fe : Nat) :
       refine ⟨trivial, ha.pos, ?_, trivial⟩
       rw [ha.data]; simp
 
-theorem runD_refines {α} (p : DProg α) (b : BufSt) (base : Nat) (h : BufInv b base) :
-    let sp := runSpecD b.limit p b.n { rest := b.avail, stop := b.r.stop, taken := base + b.n, frameEnd := base + b.limit }
-    (runBufferedD p b).1 = sp.1 ∧ sp.2.taken ≤ (runBufferedD p b).2.pos ∧
-    ((runBufferedD p b).2.pos = sp.2.taken ∨ (runBufferedD p b).2.pos ≤ base + b.limit) ∧
-    sp.2.frameEnd = base + b.limit := by
+macro "triv" : tactic => `(tactic| first | rfl | trivial)
+macro "sarith" : tactic => `(tactic| first | omega | (simp only; omega))
+
+/-- what the data-phase runs have in common -/
+structure DRel {ε β} (base lim : Nat) (bb : (ε ⊕ β) × BufSt) (sp : (ε ⊕ β) × Nat × SpecSt) : Prop where
+  out : bb.1 = sp.1
+  inv : BufInv bb.2 base
+  limit : bb.2.limit = lim
+  stop : bb.2.r.stop = sp.2.2.stop
+  taken : sp.2.2.taken ≤ bb.2.r.pos
+  bound : bb.2.r.pos ≤ base + lim
+  /-- a normal end is exact: same count, same remaining bytes -/
+  exact : ∀ x, sp.1 = .inr x → bb.2.n = sp.2.1 ∧ bb.2.avail = sp.2.2.rest ∧ sp.2.2.taken = base + sp.2.1
+
+theorem runD_refines {ε β} (p : DProg ε β) (b : BufSt) (base fe : Nat) (h : BufInv b base) :
+    DRel base b.limit (runBufferedD p b)
+      (runSpecD b.limit p b.n { rest := b.avail, stop := b.r.stop, taken := base + b.n, frameEnd := fe }) ∧
+    (runSpecD b.limit p b.n { rest := b.avail, stop := b.r.stop, taken := base + b.n, frameEnd := fe }).2.2.frameEnd = fe := by
   induction p generalizing b with
-  | done a =>
+  | done x =>
     simp only [runBufferedD, runSpecD]
     have := h.pos; have := h.inv
-    refine ⟨trivial, by omega, Or.inr (by omega), trivial⟩
+    exact ⟨⟨rfl, h, rfl, rfl, by sarith, by sarith, fun _ _ => ⟨rfl, rfl, rfl⟩⟩, by triv⟩
+  | exit e =>
+    simp only [runBufferedD, runSpecD]
+    have := h.pos; have := h.inv
+    exact ⟨⟨rfl, h, rfl, rfl, by sarith, by sarith, fun _ hx => by cases hx⟩, by triv⟩
   | readBuf k onErr cont ih =>
     have sp := readFullB_spec k b base h
     simp only [runBufferedD, runSpecD]
@@ -487,47 +504,24 @@ theorem runD_refines {α} (p : DProg α) (b : BufSt) (base : Nat) (h : BufInv b 
       have hpos := sp.inv.pos
       have hinv := sp.inv.inv
       have hl := sp.limit
+      have hm := sp.mono
       by_cases hl2 : b.limit - b.n ≤ b.avail.length
       · have e1 := sp.lim hc hl2
         have hres : readFullB k b = (.error .limit, (readFullB k b).2) := by rw [← e1]
         rw [hres]
         simp only [hl2, ↓reduceIte]
-        have := sp.mono
-        refine ⟨trivial, ?_, Or.inr ?_, trivial⟩
-        · omega
-        · omega
+        exact ⟨⟨rfl, sp.inv, sp.limit, sp.stop, by sarith, by sarith, fun _ hx => by cases hx⟩, by triv⟩
       · have e1 := sp.fin hc (by omega)
         have hres : readFullB k b = (.error (RdStop.ofStop b.r.stop), (readFullB k b).2) := by rw [← e1]
         rw [hres]
         simp only [hl2, ↓reduceIte]
-        have := sp.mono
-        refine ⟨trivial, ?_, Or.inr ?_, trivial⟩
-        · omega
-        · omega
-  | endData onBad cont =>
-    simp only [runBufferedD, runSpecD]
-    by_cases hn : b.n = b.limit
-    · simp only [hn, ↓reduceIte]
-      have hp : b.pending = [] := by
-        have := h.inv
-        cases hb : b.pending with
-        | nil => rfl
-        | cons _ _ => rw [hb] at this; simp at this; omega
-      have hpos : b.r.pos = base + b.limit := by have := h.pos; rw [hp] at this; simp at this; omega
-      have := runT_refines cont b.r (base + b.limit)
-      simp only [BufSt.avail, hp, List.nil_append]
-      rw [hpos] at this
-      obtain ⟨t1, t2, t3, t4⟩ := this
-      exact ⟨t1, by omega, Or.inl t2, t4⟩
-    · simp only [hn, ↓reduceIte]
-      have := h.pos; have := h.inv
-      refine ⟨trivial, by omega, Or.inr (by omega), trivial⟩
+        exact ⟨⟨rfl, sp.inv, sp.limit, sp.stop, by sarith, by sarith, fun _ hx => by cases hx⟩, by triv⟩
 
 /-- **Refinement.**  Whatever the reader's chunking, the buffered run returns the outcome of
     the specification run on the plain byte list; it pulls at least the bytes the specification run
     consumes and — unless it stops inside the data area, where at most the rest of the data area has
     been buffered — exactly those. -/
-theorem run_refines {α} (p : HProg α) (r : Reader) (fe : Nat) :
+theorem run_refines {α ε β} (p : HProg α ε β) (r : Reader) (fe : Nat) :
     let sp := runSpec p { rest := r.data, stop := r.stop, taken := r.pos, frameEnd := fe }
     (runBuffered p r).1 = sp.1 ∧ sp.2.taken ≤ (runBuffered p r).2.pos ∧
     ((runBuffered p r).2.pos = sp.2.taken ∨ (runBuffered p r).2.pos ≤ sp.2.frameEnd) := by
@@ -545,16 +539,63 @@ theorem run_refines {α} (p : HProg α) (r : Reader) (fe : Nat) :
       simp only [runBuffered, runSpec, hr, hk, ↓reduceIte, List.length_nil, Nat.zero_add]
       refine ⟨trivial, ?_, Or.inl ha.pos⟩
       rw [ha.pos]; exact Nat.le_refl _
-  | data limit p =>
-    simp only [runBuffered, runSpec]
+  | data limit p onExit onBad after =>
     have hb : BufInv { r := r, pending := [], n := 0, limit := limit } r.pos := ⟨by simp, by simp⟩
-    have := runD_refines p { r := r, pending := [], n := 0, limit := limit } r.pos hb
-    simp only [BufSt.avail, List.nil_append, Nat.add_zero] at this
-    obtain ⟨t1, t2, t3, t4⟩ := this
-    refine ⟨t1, t2, ?_⟩
-    rcases t3 with t3 | t3
-    · exact Or.inl t3
-    · right; rw [t4]; exact t3
+    obtain ⟨rel, hfe⟩ := runD_refines p { r := r, pending := [], n := 0, limit := limit } r.pos (r.pos + limit) hb
+    simp only [BufSt.avail, List.nil_append, Nat.add_zero] at rel hfe
+    simp only [runBuffered, runSpec]
+    generalize hbb : runBufferedD p { r := r, pending := [], n := 0, limit := limit } = bb at rel
+    generalize hsp : runSpecD limit p 0 { rest := r.data, stop := r.stop, taken := r.pos, frameEnd := r.pos + limit } = sp at rel hfe
+    obtain ⟨bo, b'⟩ := bb
+    obtain ⟨so, n', s'⟩ := sp
+    have hout : bo = so := rel.out
+    subst hout
+    cases bo with
+    | inl e =>
+      simp only
+      exact ⟨by first | rfl | trivial, rel.taken, Or.inr (by rw [hfe]; exact rel.bound)⟩
+    | inr x =>
+      simp only
+      obtain ⟨x1, x2, x3⟩ := rel.exact x rfl
+      simp only at x1 x2 x3 hfe
+      have hl : b'.limit = limit := rel.limit
+      rw [x1, hl]
+      by_cases hn : n' = limit
+      · simp only [hn, ↓reduceIte]
+        -- all of the data area is consumed: nothing is buffered
+        have hp : b'.pending = [] := by
+          have := rel.inv.inv
+          cases hbp : b'.pending with
+          | nil => rfl
+          | cons _ _ => rw [hbp] at this; simp at this; omega
+        have hpos : b'.r.pos = s'.taken := by
+          have := rel.inv.pos; rw [hp] at this; simp at this; omega
+        have hdata : b'.r.data = s'.rest := by
+          rw [← x2]; simp [BufSt.avail, hp]
+        have hst : b'.r.stop = s'.stop := rel.stop
+        have key := runT_refines (after x) b'.r s'.frameEnd
+        rw [hdata, hst, hpos] at key
+        cases s' with
+        | mk sr ss stk sf =>
+          simp only at key ⊢
+          obtain ⟨t1, t2, t3, t4⟩ := key
+          exact ⟨t1, by omega, Or.inl t2⟩
+      · simp only [hn, ↓reduceIte]
+        exact ⟨by first | rfl | trivial, rel.taken, Or.inr (by rw [hfe]; exact rel.bound)⟩
+  | dataOnly limit p onExit fin =>
+    have hb : BufInv { r := r, pending := [], n := 0, limit := limit } r.pos := ⟨by simp, by simp⟩
+    obtain ⟨rel, hfe⟩ := runD_refines p { r := r, pending := [], n := 0, limit := limit } r.pos (r.pos + limit) hb
+    simp only [BufSt.avail, List.nil_append, Nat.add_zero] at rel hfe
+    simp only [runBuffered, runSpec]
+    generalize hbb : runBufferedD p { r := r, pending := [], n := 0, limit := limit } = bb at rel
+    generalize hsp : runSpecD limit p 0 { rest := r.data, stop := r.stop, taken := r.pos, frameEnd := r.pos + limit } = sp at rel hfe
+    obtain ⟨bo, b'⟩ := bb
+    obtain ⟨so, n', s'⟩ := sp
+    have hout : bo = so := rel.out
+    subst hout
+    cases bo with
+    | inl e => exact ⟨by first | rfl | trivial, rel.taken, Or.inr (by rw [hfe]; exact rel.bound)⟩
+    | inr x => exact ⟨by first | rfl | trivial, rel.taken, Or.inr (by rw [hfe]; exact rel.bound)⟩
   | copyAll limit onErr cont =>
     obtain ⟨h1, h2⟩ := copyNB_spec limit limit r [] (Nat.le_refl limit)
     by_cases hk : limit ≤ r.data.length
@@ -569,64 +610,82 @@ theorem run_refines {α} (p : HProg α) (r : Reader) (fe : Nat) :
       refine ⟨trivial, ?_, Or.inl ha.pos⟩
       rw [ha.pos]; exact Nat.le_refl _
 
+/-- the specification run does not look at positions -/
+theorem runSpecT_pos_irrelevant {α} (q : TProg α) (s1 s2 : SpecSt) (e1 : s1.rest = s2.rest) (e2 : s1.stop = s2.stop) :
+    (runSpecT q s1).1 = (runSpecT q s2).1 := by
+  induction q generalizing s1 s2 with
+  | done a => rfl
+  | readDirect k onErr cont ih =>
+    simp only [runSpecT, e1, e2]
+    split
+    · exact ih _ _ _ rfl rfl
+    · rfl
+
+theorem runSpecD_pos_irrelevant {ε β} (limit : Nat) (q : DProg ε β) (n : Nat) (s1 s2 : SpecSt)
+    (e1 : s1.rest = s2.rest) (e2 : s1.stop = s2.stop) :
+    (runSpecD limit q n s1).1 = (runSpecD limit q n s2).1 ∧
+    (runSpecD limit q n s1).2.1 = (runSpecD limit q n s2).2.1 ∧
+    (runSpecD limit q n s1).2.2.rest = (runSpecD limit q n s2).2.2.rest ∧
+    (runSpecD limit q n s1).2.2.stop = (runSpecD limit q n s2).2.2.stop := by
+  induction q generalizing n s1 s2 with
+  | done a => exact ⟨rfl, rfl, e1, e2⟩
+  | exit e => exact ⟨rfl, rfl, e1, e2⟩
+  | readBuf k onErr cont ih =>
+    simp only [runSpecD, e1, e2]
+    split
+    · exact ih _ _ _ _ rfl rfl
+    · split <;> exact ⟨rfl, rfl, e1, e2⟩
+
+theorem runSpec_pos_irrelevant {α ε β} (q : HProg α ε β) (s1 s2 : SpecSt)
+    (e1 : s1.rest = s2.rest) (e2 : s1.stop = s2.stop) :
+    (runSpec q s1).1 = (runSpec q s2).1 := by
+  induction q generalizing s1 s2 with
+  | done a => rfl
+  | readDirect k onErr cont ih =>
+    simp only [runSpec, e1, e2]
+    split
+    · exact ih _ _ _ rfl rfl
+    · rfl
+  | data limit p onExit onBad after =>
+    simp only [runSpec]
+    obtain ⟨h1, h2, h3, h4⟩ := runSpecD_pos_irrelevant limit p 0
+      { s1 with frameEnd := s1.taken + limit } { s2 with frameEnd := s2.taken + limit } e1 e2
+    generalize runSpecD limit p 0 { s1 with frameEnd := s1.taken + limit } = a at h1 h2 h3 h4
+    generalize runSpecD limit p 0 { s2 with frameEnd := s2.taken + limit } = b at h1 h2 h3 h4
+    obtain ⟨ao, an, as⟩ := a
+    obtain ⟨bo, bn, bs⟩ := b
+    simp only at h1 h2 h3 h4
+    subst h1 h2
+    cases ao with
+    | inl e => rfl
+    | inr x =>
+      simp only
+      split
+      · exact runSpecT_pos_irrelevant _ _ _ h3 h4
+      · rfl
+  | dataOnly limit p onExit fin =>
+    simp only [runSpec]
+    obtain ⟨h1, h2, h3, h4⟩ := runSpecD_pos_irrelevant limit p 0
+      { s1 with frameEnd := s1.taken + limit } { s2 with frameEnd := s2.taken + limit } e1 e2
+    generalize runSpecD limit p 0 { s1 with frameEnd := s1.taken + limit } = a at h1 h2 h3 h4
+    generalize runSpecD limit p 0 { s2 with frameEnd := s2.taken + limit } = b at h1 h2 h3 h4
+    obtain ⟨ao, an, as⟩ := a
+    obtain ⟨bo, bn, bs⟩ := b
+    simp only at h1
+    subst h1
+    cases ao <;> rfl
+  | copyAll limit onErr cont =>
+    simp only [runSpec, e1, e2]
+    split
+    · exact runSpecT_pos_irrelevant _ _ _ rfl rfl
+    · rfl
+
 /-- Chunk independence: two readers over the same bytes that end the same way give the same
     outcome, however differently they split the stream into `Read` results. -/
-theorem run_chunk_independent {α} (p : HProg α) (r1 r2 : Reader)
+theorem run_chunk_independent {α ε β} (p : HProg α ε β) (r1 r2 : Reader)
     (hd : r1.data = r2.data) (hs : r1.stop = r2.stop) :
     (runBuffered p r1).1 = (runBuffered p r2).1 := by
-  have h1 := (run_refines p r1 0).1
-  have h2 := (run_refines p r2 0).1
-  rw [h1, h2]
-  -- the specification run does not look at positions
-  have : ∀ (q : HProg α) (s1 s2 : SpecSt), s1.rest = s2.rest → s1.stop = s2.stop →
-      (runSpec q s1).1 = (runSpec q s2).1 := by
-    have hT : ∀ (q : TProg α) (s1 s2 : SpecSt), s1.rest = s2.rest → s1.stop = s2.stop →
-        (runSpecT q s1).1 = (runSpecT q s2).1 := by
-      intro q
-      induction q with
-      | done a => intros; rfl
-      | readDirect k onErr cont ih =>
-        intro s1 s2 e1 e2
-        simp only [runSpecT, e1, e2]
-        split
-        · exact ih _ _ _ rfl rfl
-        · rfl
-    have hD : ∀ (limit : Nat) (q : DProg α) (n : Nat) (s1 s2 : SpecSt), s1.rest = s2.rest → s1.stop = s2.stop →
-        (runSpecD limit q n s1).1 = (runSpecD limit q n s2).1 := by
-      intro limit q
-      induction q with
-      | done a => intros; rfl
-      | readBuf k onErr cont ih =>
-        intro n s1 s2 e1 e2
-        simp only [runSpecD, e1, e2]
-        split
-        · exact ih _ _ _ _ rfl rfl
-        · split <;> rfl
-      | endData onBad cont =>
-        intro n s1 s2 e1 e2
-        simp only [runSpecD]
-        split
-        · exact hT _ _ _ e1 e2
-        · rfl
-    intro q
-    induction q with
-    | done a => intros; rfl
-    | readDirect k onErr cont ih =>
-      intro s1 s2 e1 e2
-      simp only [runSpec, e1, e2]
-      split
-      · exact ih _ _ _ rfl rfl
-      · rfl
-    | data limit p =>
-      intro s1 s2 e1 e2
-      simp only [runSpec]
-      exact hD _ _ _ _ _ e1 e2
-    | copyAll limit onErr cont =>
-      intro s1 s2 e1 e2
-      simp only [runSpec, e1, e2]
-      split
-      · exact hT _ _ _ rfl rfl
-      · rfl
-  exact this p _ _ hd hs
+  rw [(run_refines p r1 0).1, (run_refines p r2 0).1]
+  exact runSpec_pos_irrelevant p _ _ hd hs
 
 end Fit
